@@ -81,6 +81,8 @@ class Tr:
                 # applied to the translated arguments in the source's order
                 return f"({self.env['round']} {self.expr(n.args[0])} {self.expr(n.args[1])})"
             raise TranslationError(f"call {f}")
+        if isinstance(n, ast.Tuple) and len(n.elts) >= 2:
+            return "(" + ", ".join(self.expr(e) for e in n.elts) + ")"  # a Lean tuple: the arity and the order are part of the leaf
         if isinstance(n, ast.IfExp):
             return f"(if {self.cond(n.test)} then {self.expr(n.body)} else {self.expr(n.orelse)})"
         if isinstance(n, (ast.Compare, ast.BoolOp)):
@@ -470,6 +472,9 @@ LEAVES = [
     ("C02", "totalBudget", "(m b : Rat)", "Rat", whole(MES, "MESVoter.total_budget", {"self.multiplicity": "m", "self.budget": "b"})),
     ("C02", "totalSatProject", "(m u : Rat)", "Rat", whole(MES, "MESVoter.total_sat_project", {"self.multiplicity": "m", "self.sat.sat_project(proj)": "u"})),
     ("C02", "budgetOverSat", "(b u : Rat)", "Rat", assign(MES, "MESVoter.budget_over_sat_project", "res", {"self.budget": "b", "self.sat.sat_project(proj)": "u"}, k=1)),
+    # the memo of MESVoter.budget_over_sat_project: looked up and stored under the SAME key, which holds BOTH arguments of the cached value
+    ("C02", "cacheLookupKey", "(proj budget : Rat)", "Rat × Rat", exprc(MES, "MESVoter.budget_over_sat_project", "proj, self.budget", {"proj": "proj", "self.budget": "budget"}, k=0, kind=ast.Tuple)),
+    ("C02", "cacheStoreKey", "(proj budget : Rat)", "Rat × Rat", exprc(MES, "MESVoter.budget_over_sat_project", "proj, self.budget", {"proj": "proj", "self.budget": "budget"}, k=1, kind=ast.Tuple)),
     ("C02", "initialAffordability", "(cost totalSat : Rat)", "Rat", assign(MES, "method_of_equal_shares_scheme", "afford", {"p.cost": "cost", "total_sat": "totalSat"})),
     ("C02", "isSupporter", "(u : Rat)", "Bool", test(MES, "method_of_equal_shares_scheme", "indiv_sat > 0", {"indiv_sat": "u"})),
     ("C02", "isSupported", "(totalSat : Rat)", "Bool", test(MES, "method_of_equal_shares_scheme", "total_sat > 0", {"total_sat": "totalSat"})),
